@@ -1,17 +1,18 @@
 #!/bin/sh
 # usage: tools/try_seed.sh <seeded-dir-or-patch> <ID> [<ID> ...] [--tier T]
-# Applies a seeded change to /repo, runs the named checks, and ALWAYS reverts /repo afterwards.
+# Applies a seeded change to a scratch worktree of /repo (so /repo itself and anything running against it are never
+# disturbed), runs the named checks against that tree (VERIF_REPO), and removes the worktree afterwards.
 P="$1"; shift
 [ -d "$P" ] && P="$P/patch.diff"
+P=$(readlink -f "$P")
 TIER=quick
 IDS=""
 while [ $# -gt 0 ]; do case "$1" in --tier) TIER="$2"; shift 2;; *) IDS="$IDS $1"; shift;; esac; done
-if ! git -C /repo diff --quiet; then echo "refusing: /repo has uncommitted changes"; exit 2; fi
-git -C /repo apply "$P" || { echo "patch does not apply"; exit 2; }
-trap 'git -C /repo checkout -- . ; echo "[/repo reverted]"' EXIT INT TERM
-RC=0
+W=/tmp/tryseed-$$
+/verif/tools/mk_worktree.sh "$W" >/dev/null || exit 2
+trap 'git -C /repo worktree remove --force "$W" >/dev/null 2>&1; echo "[scratch worktree removed]"' EXIT INT TERM
+git -C "$W" apply "$P" || { echo "patch does not apply"; exit 2; }
 for id in $IDS; do
-  python3 /verif/check.py "$id" --tier "$TIER" 2>&1 | grep -v "^  info\|^  stats" | cut -c1-260
-  [ "${PIPESTATUS:-0}" != "0" ] && RC=1
+  VERIF_REPO="$W" python3 /verif/check.py "$id" --tier "$TIER" 2>&1 | grep -v "^  info\|^  stats" | cut -c1-260
 done
 exit 0
